@@ -10,6 +10,7 @@ import (
 	"path/filepath"
 	"strings"
 	"sync"
+	"sync/atomic"
 	"time"
 
 	"github.com/koron-go/z80"
@@ -42,6 +43,15 @@ type c18Prog struct {
 }
 
 // genC18 lays out a program of mixed BDOS calls plus its strings in one image.
+func (p *c18Prog) callsUnsupported() bool {
+	for _, cl := range p.Calls {
+		if cl.Fn >= 1000 {
+			return true
+		}
+	}
+	return false
+}
+
 func genC18(r *mon.Rng, maxStr int) *c18Prog {
 	p := &c18Prog{SP: 0xfd00 + uint16(r.Intn(0x80))*2, EndsOK: true}
 	img := make([]byte, 0xfc00-0x100)
@@ -362,9 +372,11 @@ func runC18(c *Ctx) {
 				if len(out.Bytes()) != len(p.Expect) {
 					bad = fmt.Sprintf("console output has %d bytes, want %d", out.Len(), len(p.Expect))
 				}
-			case (p.Warns == 0 && nl != 0) || nl < p.Warns:
+			case (p.Warns == 0 && nl != 0 && !p.callsUnsupported()) || nl < p.Warns:
 				// the text (and number of lines) of a warning is free: at least one line per
-				// non-console port access, none at all when there is only console traffic
+				// non-console port access, none at all when there is only console traffic (what
+				// the resident code does on an UNSUPPORTED function number is not specified - it
+				// may report it through a port of its own - so those programs may warn freely)
 				bad = fmt.Sprintf("%d warning lines for %d non-console port accesses (only those warn, and each does)", nl, p.Warns)
 			}
 			var l9, l2, lu, lpc int64
@@ -444,8 +456,19 @@ func runC18(c *Ctx) {
 		// the in-process runs already show a violation; a console call that never
 		// returns would only make the binary spin
 		c.R.Set("cmd_zexdoc_binary_skipped", "violations already found in-process")
+	} else if why := c18ProbeBinary(c, zexdocBin); why != "" {
+		// how the command finds its program (a file in the working directory on this tree)
+		// is not part of C18: when it does not run OUR file there is nothing to compare
+		c.R.Set("cmd_zexdoc_binary_skipped", why)
+		c.R.Assume("the built cmd/zexdoc binary was not exercised: " + why)
 	} else {
 		nb := c.Pick(100, 1000)
+		var slow atomic.Int64
+		defer func() {
+			if n := slow.Load(); n > 0 {
+				c.R.Inconclusive(fmt.Sprintf("%d run(s) of the built cmd/zexdoc binary were still going after 60 s of wall-clock time on programs that end with JP 0 (no verdict from a stopwatch)", n))
+			}
+		}()
 		Parallel(nb, func(bi int) {
 			r := mon.NewRng(mon.Hash(uint64(c.Seed), uint64(bi), 0xC18B))
 			p := genC18(r, 2000)
@@ -478,7 +501,7 @@ func runC18(c *Ctx) {
 			bad := ""
 			switch {
 			case cctx.Err() != nil:
-				bad = "cmd/zexdoc did not terminate within 60 s on a program that ends with JP 0"
+				slow.Add(1)
 			case err != nil:
 				bad = "cmd/zexdoc exited with an error: " + err.Error() + " " + se.String()
 			case !bytes.Equal(so.Bytes(), p.Expect):
@@ -511,6 +534,40 @@ func runC18(c *Ctx) {
 	c.R.Set("exhaustive", false)
 	c.R.Set("rule", "generated programs of 1..12 mixed calls on tinycpm (as imported from /repo): function 2 with every E value incl. '$', function 9 with strings of length 0..4096 over every byte value except '$' (long strings contain all 255 values; 1/3 high bytes) at arbitrary addresses incl. straddling 256-byte pages, OUT (n!=0),A and IN A,(n) (must warn, no console byte), an unsupported function number only as the last call (recorded, no verdict), then JP 0; BreakPoints on every call's return address: SP restored, the caller's code intact; the writer must receive exactly the concatenation in program order, warning lines only for non-console port traffic, the run must end halted at FF03; every third machine then gets a second program loaded and run on the same CPU object (sometimes on a fresh machine swapped in under that CPU and driven by Step); half of the machines write to a plain io.Writer without WriteByte/Flush; a second tinycpm machine configured alongside must see none of the traffic. A sample of programs is also written as zexdoc.cim / zexall.cim and run through the BUILT cmd/zexdoc binary (real stdout, stderr, exit status). Distinct = distinct (program, number of calls, console length); every program makes at least one call")
 	c.R.Assume("unsupported BDOS function numbers have no specified outcome")
+}
+
+// c18ProbeBinary runs two one-call programs ('A' and 'B' through function 2, then JP 0)
+// through the built command.  It returns "" when the command runs the program file
+// placed in its working directory, and a reason when it provably does not (the same
+// non-empty output for both programs: e.g. an embedded image).
+func c18ProbeBinary(c *Ctx, bin string) string {
+	run := func(marker byte) ([]byte, bool) {
+		dir := filepath.Join(c.Tmp, fmt.Sprintf("c18-probe-%c", marker))
+		os.MkdirAll(dir, 0o755)
+		defer os.RemoveAll(dir)
+		os.WriteFile(filepath.Join(dir, "zexdoc.cim"), []byte{0x0e, 0x02, 0x1e, marker, 0xcd, 0x05, 0x00, 0xc3, 0x00, 0x00}, 0o644)
+		cctx, cancel := context.WithTimeout(context.Background(), 20*time.Second)
+		defer cancel()
+		cmd := exec.CommandContext(cctx, bin)
+		cmd.Dir = dir
+		var so bytes.Buffer
+		cmd.Stdout = &so
+		cmd.Run()
+		return so.Bytes(), cctx.Err() != nil
+	}
+	a, _ := run('A')
+	if string(a) == "A" {
+		return ""
+	}
+	b, _ := run('B')
+	if len(a) > 0 && bytes.Equal(a, b) {
+		head := a
+		if len(head) > 40 {
+			head = head[:40]
+		}
+		return fmt.Sprintf("the command does not run ./zexdoc.cim from its working directory: two different one-call programs both produced the same %d bytes of output (%q...)", len(a), head)
+	}
+	return ""
 }
 
 type errBudget struct{}
